@@ -1,6 +1,7 @@
 package main
 
 import (
+	"encoding/json"
 	"fmt"
 	"os"
 	"runtime/debug"
@@ -43,6 +44,19 @@ func main() {
 		}
 		sort.Strings(ids)
 		fmt.Println(strings.Join(ids, " "))
+	case "describe":
+		var ids []string
+		for id := range registry {
+			ids = append(ids, id)
+		}
+		sort.Strings(ids)
+		var out []map[string]any
+		for _, id := range ids {
+			d := registry[id]
+			out = append(out, map[string]any{"id": id, "technique": d.Technique, "explanation": d.Explanation, "not_decided": d.NotDecided, "assumptions": d.Assumptions})
+		}
+		b, _ := json.MarshalIndent(out, "", " ")
+		fmt.Println(string(b))
 	case "explain":
 		if len(os.Args) < 3 {
 			usage()
